@@ -13,7 +13,7 @@ import (
 
 func init() {
 	Register("C14", "Decides, on the per-byte summaries of every state function of the schema-side scanners (notations/jschema/scanner, rules/enum): (nl) LF and CR have identical rows in every state, so the newline convention cannot change the lexeme stream; (blank) in every between-token state SPACE and TAB have identical rows; (norm) rule names are compared only after TrimSpaces().Unquote(), so quoted and bare rule names mean the same; (deleg) re-dispatch of one byte between states terminates. (space) a skipped blank leaves no trace; (style) every test for one annotation opener is paired with the test for the other. Does NOT decide equality of AST/example/OpenAPI across spellings.",
-		c14nl, c14blank, c14space, c14norm, c14style, c14nlre, c14emptycomment, c14trimnote, c14nlskip, asciiBlankRule("C14.asciiblank"), retStateRule("C14.retstate"), annoEndRule("C14.annoend"), crlfRule("C14.crlf"), pipeSplitRule("C14.pipe"), bytewiseRule("C14.bytewise"), commaResetRule("C14.commareset"), blockCommentEOFRule("C14.blockeof"), slashEOFRule("C14.slasheof", "(*notations/jschema/scanner.Scanner).switchToAnnotation", []string{"notations/jschema/scanner.stateAnyAnnotationStart", "notations/jschema/scanner.stateInlineAnnotationStart"}, "(*notations/jschema/scanner.Scanner).Next"))
+		c14nl, c14blank, c14space, c14norm, c14style, c14nlre, c14emptycomment, c14trimnote, c14nlskip, asciiBlankRule("C14.asciiblank"), retStateRule("C14.retstate"), annoEndRule("C14.annoend"), crlfRule("C14.crlf"), pipeSplitRule("C14.pipe"), bytewiseRule("C14.bytewise"), eofNewlineRule("C14.eofnl"), commaResetRule("C14.commareset"), blockCommentEOFRule("C14.blockeof"), slashEOFRule("C14.slasheof", "(*notations/jschema/scanner.Scanner).switchToAnnotation", []string{"notations/jschema/scanner.stateAnyAnnotationStart", "notations/jschema/scanner.stateInlineAnnotationStart"}, "(*notations/jschema/scanner.Scanner).Next"))
 }
 
 var schemaScanners = []string{"notations/jschema/scanner", "rules/enum"}
